@@ -805,3 +805,107 @@ Section Example.
     - intros p sid Hsid _. rewrite (Hs sid Hsid). reflexivity.
   Qed.
 End Example.
+
+(** * H-CLIP in the form used follows from its per-edge form: if every edge a cell does NOT list is
+      not crossed by centre -> p, the crossing parity over all edges equals the parity over the
+      listed ones (the listed ids being increasing and in range, as [index_ok] demands). *)
+Section ClipFromEdges.
+  Variable point : Type.
+  Variable crossing_sign : point -> point -> point -> point -> crossing.
+  Variable vertex_crossing : point -> point -> point -> point -> bool.
+  Notation eov := (edge_or_vertex_crossing point crossing_sign vertex_crossing).
+  Notation parity := (parity_crossings point crossing_sign vertex_crossing).
+
+  Lemma parity_app a b (l1 l2 : list (pedge point)) : parity a b (l1 ++ l2) = xorb (parity a b l1) (parity a b l2).
+  Proof.
+    induction l1 as [|e t IH]; [cbn [app]; change (parity a b []) with false; rewrite xorb_false_l; reflexivity|].
+    rewrite <- app_comm_cons, !(parity_cons point crossing_sign vertex_crossing), IH, xorb_assoc. reflexivity.
+  Qed.
+
+  Lemma parity_all_false a b (l : list (pedge point)) :
+    (forall e, In e l -> eov a b (fst e) (snd e) = false) -> parity a b l = false.
+  Proof.
+    induction l as [|e t IH]; intros H; [reflexivity|].
+    rewrite (parity_cons point crossing_sign vertex_crossing), (H e (or_introl eq_refl)), IH; [reflexivity|].
+    intros e' He'. apply H. right; exact He'.
+  Qed.
+
+  Lemma In_firstn_skipn {A} (es : list A) : forall lo m e, In e (firstn m (skipn lo es)) ->
+    exists k, (lo <= k < lo + m)%nat /\ nth_error es k = Some e.
+  Proof.
+    induction es as [|h t IH]; intros lo m e Hin.
+    - destruct lo, m; cbn in Hin; contradiction.
+    - destruct lo as [|lo].
+      + cbn [skipn] in Hin. destruct m as [|m]; [contradiction|]. cbn [firstn] in Hin.
+        destruct Hin as [<-|Hin]; [exists O; split; [lia|reflexivity]|].
+        destruct (IH O m e) as (k & Hk & Hn); [cbn [skipn]; exact Hin|]. exists (S k). split; [lia|exact Hn].
+      + cbn [skipn] in Hin. destruct (IH lo m e Hin) as (k & Hk & Hn). exists (S k). split; [lia|exact Hn].
+  Qed.
+
+  Lemma skipn_skipn' {A} (l : list A) : forall x y, skipn x (skipn y l) = skipn (x + y) l.
+  Proof.
+    induction l as [|h t IH]; intros x y.
+    - destruct x, y; reflexivity.
+    - destruct y as [|y].
+      + cbn [skipn]. rewrite Nat.add_0_r. reflexivity.
+      + cbn [skipn]. rewrite IH. replace (x + S y)%nat with (S (x + y)) by lia. reflexivity.
+  Qed.
+
+  Lemma skipn_nth_cons {A} (es : list A) : forall k x, nth_error es k = Some x -> skipn k es = x :: skipn (S k) es.
+  Proof.
+    induction es as [|h t IH]; intros k x H; destruct k; cbn in H; try discriminate.
+    - inversion H; reflexivity.
+    - cbn [skipn]. rewrite (IH k x H). reflexivity.
+  Qed.
+
+  Lemma edges_of_cons (s : qshape point) x t ex : 0 <= x < lenZ (q_edges s) ->
+    nth_error (q_edges s) (Z.to_nat x) = Some ex -> edges_of point s (x :: t) = ex :: edges_of point s t.
+  Proof.
+    intros Hx Hn. unfold edges_of. cbn [flat_map].
+    destruct (0 <=? x) eqn:E1; [|apply Z.leb_gt in E1; lia].
+    destruct (x <? lenZ (q_edges s)) eqn:E2; [|apply Z.ltb_ge in E2; lia].
+    cbn [andb]. rewrite Hn. reflexivity.
+  Qed.
+
+  Theorem parity_listed_eq_all (s : qshape point) a b : forall ids (lo : nat),
+    increasing ids ->
+    (forall e, In e ids -> Z.of_nat lo <= e < lenZ (q_edges s)) ->
+    (forall k ex, (lo <= k)%nat -> ~ In (Z.of_nat k) ids -> nth_error (q_edges s) k = Some ex ->
+                  eov a b (fst ex) (snd ex) = false) ->
+    parity a b (skipn lo (q_edges s)) = parity a b (edges_of point s ids).
+  Proof.
+    induction ids as [|x t IH]; intros lo Hinc Hrange Hun.
+    - cbn. apply parity_all_false. intros e He.
+      rewrite <- (firstn_all (skipn lo (q_edges s))) in He.
+      apply In_firstn_skipn in He as (k & Hk & Hn). apply (Hun k e); [lia|tauto|exact Hn].
+    - pose proof (Hrange x (or_introl eq_refl)) as Hx.
+      set (xn := Z.to_nat x).
+      assert (xn < length (q_edges s))%nat as Hxl by (unfold lenZ in Hx; lia).
+      destruct (nth_error (q_edges s) xn) as [ex|] eqn:Hn; [|apply nth_error_None in Hn; lia].
+      rewrite (edges_of_cons s x t ex) by (lia || exact Hn).
+      rewrite <- (firstn_skipn (xn - lo) (skipn lo (q_edges s))), skipn_skipn'.
+      replace (xn - lo + lo)%nat with xn by lia.
+      rewrite (skipn_nth_cons _ _ _ Hn), parity_app, !(parity_cons point crossing_sign vertex_crossing).
+      pose proof (increasing_head_lt x t Hinc) as Hlt.
+      rewrite parity_all_false, xorb_false_l.
+      + f_equal. apply IH.
+        * eapply increasing_tail; eassumption.
+        * intros e He. specialize (Hlt e He). specialize (Hrange e (or_intror He)). lia.
+        * intros k ex' Hk Hnot Hn'. apply (Hun k ex'); [lia| |exact Hn'].
+          intros [Heq|Hin]; [lia|contradiction].
+      + intros e He. apply In_firstn_skipn in He as (k & Hk & Hn').
+        apply (Hun k e); [lia| |exact Hn'].
+        intros [Heq|Hin]; [lia|]. specialize (Hlt _ Hin). lia.
+  Qed.
+
+  (** the form in which it feeds H_CLIP: all edges vs the edges one cell lists *)
+  Corollary clip_parity_from_edges (s : qshape point) a b ids :
+    increasing ids ->
+    (forall e, In e ids -> 0 <= e < lenZ (q_edges s)) ->
+    (forall k ex, ~ In (Z.of_nat k) ids -> nth_error (q_edges s) k = Some ex -> eov a b (fst ex) (snd ex) = false) ->
+    parity a b (q_edges s) = parity a b (edges_of point s ids).
+  Proof.
+    intros Hinc Hr Hun. apply (parity_listed_eq_all s a b ids O); [assumption|exact Hr|].
+    intros k ex _. apply Hun.
+  Qed.
+End ClipFromEdges.
